@@ -265,7 +265,8 @@ class MailboxWorld:
         sides = sides or {}
         for i, (name, mode) in enumerate(clients):
             appid = (appids or {}).get(name, "appid")
-            side = sides.get(name, bytes([0x10 * (i + 1) + i + 1]) * 5)
+            # (sides with hex letters: relabelling attacks that change only the letter case need something to change)
+            side = sides.get(name, [b"\xa1\xb2\xc3\xd4\xe5", b"\xf6\xe7\xd8\xc9\xb0", b"\x0a\x1b\x2c\x3d\x4e"][i % 3])
             self.clients[name] = Client(self, name, appid, mode, side, versions=(versions or {}).get(name),
                                         dilation=dilation)
         self.settle()
